@@ -192,6 +192,7 @@ def sym_born_unit(u, res):
     return res
 
 
+@symnp.outside_session
 def replay_sym_born(cid, zv, ev):
     from phonopy.structure.atoms import PhonopyAtoms
     from phonopy.structure.symmetry import Symmetry, symmetrize_borns_and_epsilon
@@ -356,7 +357,8 @@ def run_unit(u):
             for qi, q in enumerate(qs):
                 v, m, idx = assert_equal(res, "zero Born charges: %s NAC is a no-op at q=%s" % (method, q), cflat(D1[qi]), cflat(D0[qi]), A, tol=1e-9)
                 if v == "sat":
-                    res.unconfirmed.append({"key": "%s:zero_born:%s:q%d" % (PID, method, qi), "what": "sat without concrete replay"})
+                    ok, what = replay_zero_born(gid, sid, method, harness.model_floats(m, xs), q)
+                    (res.violations if ok else res.unconfirmed).append({"key": "%s:zero_born:%s:q%d" % (PID, method, qi), "what": what, "replay": {"unit": [str(x) for x in u], "q": q}})
             res.twins.append({"name": "zero-born twin", "verdict": "sat"})
         elif kind == "gl_direction":
             ns = harness.reals("n", 3)
@@ -437,6 +439,26 @@ def _decide(res, u, sub, v, m, zs, evars, ns, case, fc_conc, Zc, mode, lam=None,
     (res.violations if ok else res.unconfirmed).append({"key": key, "what": what, "replay": {"Z": Z.tolist(), "eps": eps.tolist(), "n": nfr}})
 
 
+@symnp.outside_session
+def replay_zero_born(gid, sid, method, x, q):
+    """concrete: dynamical matrix with NAC parameters whose Born charges are zero against the one without NAC"""
+    import phonopy
+    ph = geometries.phonopy_obj(gid, sid)
+    n = len(ph.supercell)
+    F = np.array(x, dtype="double").reshape(n, n, 3, 3)
+    ph.force_constants = F.copy()
+    ph.dynamical_matrix.run(np.array(q, dtype=float)); D0 = ph.dynamical_matrix.dynamical_matrix.copy()
+    ph.nac_params = {"born": np.zeros((len(ph.primitive), 3, 3)), "dielectric": EPS0.copy(), "factor": FACTOR, "method": method}
+    if np.abs(np.array(q)).max() < 1e-9:
+        ph.dynamical_matrix.run(np.array(q, dtype=float), q_direction=np.array([1.0, 0, 0]))
+    else:
+        ph.dynamical_matrix.run(np.array(q, dtype=float))
+    D1 = ph.dynamical_matrix.dynamical_matrix
+    d = float(np.abs(D1 - D0).max())
+    return d > 1e-9, "zero Born charges: the %s NAC dynamical matrix differs from the uncorrected one by %.3g at q=%s" % (method, d, q)
+
+
+@symnp.outside_session
 def replay_wang(case, fc, Z, eps, nfr, sub, lam=None, q=None):
     from phonopy.harmonic.dynamical_matrix import get_dynamical_matrix
     nac = {"born": np.array(Z, dtype=float), "dielectric": np.array(eps, dtype=float), "factor": FACTOR, "method": "wang"}
